@@ -64,6 +64,7 @@ func main() {
 		if err != nil || json.Unmarshal(b, &c) != nil {
 			os.Exit(2)
 		}
+		policeHeap(confirmHeapLimit)
 		probesOf(&c)
 		os.Exit(0)
 	default:
